@@ -27,7 +27,18 @@ NParsOf(src) == IF src.py = 3 THEN 3 ELSE 2      \* version 3 of the definition 
 Reset == /\ text' = [f \in Files |-> 1] /\ mtime' = [f \in Files |-> 0] /\ clock' = 1
          /\ dll' = {} /\ means' = <<>> /\ modc' = [p \in Procs |-> NoMod]
          /\ tmplc' = [p \in Procs |-> NoTmpl] /\ last' = [p \in Procs |-> NoLast] /\ wrapc' = [p \in Procs |-> {}]
+         /\ svc' = [p \in Procs |-> NoSv]
          /\ just' = NoJust /\ steps' = 0
+
+\* what an evaluation of (library, table) returns: the definition's version arrives through the table's default
+\* for versions 1 and 2 and through the C source for version 3
+ValueOf(r) == 1000 * (IF r.src.py = 3 THEN 3 ELSE r.info) + 100 * r.src.inc + r.src.tmpl
+\* which of the three files the returned value is stale about
+StaleParts(value) ==
+    LET cur == Meaning(Current) IN
+    (IF value \div 1000 # cur \div 1000 THEN <<"py">> ELSE <<>>)
+    \o (IF (value \div 100) % 10 # (cur \div 100) % 10 THEN <<"inc">> ELSE <<>>)
+    \o (IF value % 100 # cur % 100 THEN <<"tmpl">> ELSE <<>>)
 
 Reject(e, clause, detail) ==
     /\ PrintT(<<"REJECT", e.tid, l, clause, detail>>) /\ TLCSet(2, TLCGet(2) + 1)
@@ -50,6 +61,20 @@ TNext ==
        ELSE IF e.ev = "NewProcess" THEN
             IF ~ENABLED NewProcess(e.p) THEN Reject(e, "harness-newprocess-not-enabled", e.p)
             ELSE NewProcess(e.p) /\ skip' = FALSE
+       ELSE IF e.ev = "SvLoad" THEN
+            \* the SasView route.  The registry of model classes is modelled as written (a class and its compiled
+            \* kernel are kept while the module object is unchanged); a value that is not even that is rejected and
+            \* the history abandoned, a value that is that but not the meaning of the current texts is reported
+            \* (Coherent) and the history goes on
+            IF e.raised # "" THEN Reject(e, "load-raised", e.raised)
+            ELSE IF ~ENABLED LoadSv(e.p) THEN Reject(e, "harness-load-not-enabled", e.p)
+            ELSE IF ~ENABLED (LoadSv(e.p) /\ ValueOf(last'[e.p]) = e.value) THEN
+                 Reject(e, "stale-or-wrong-sources", ToString(<<"sasview route", "stale", StaleParts(e.value), "expected", Meaning(Current), "got", e.value>>))
+            ELSE /\ LoadSv(e.p) /\ skip' = FALSE
+                 /\ IF e.value = Meaning(Current) THEN TRUE
+                    ELSE PrintT(<<"REJECT", e.tid, l, "stale-or-wrong-sources",
+                                  ToString(<<"sasview route", "stale", StaleParts(e.value), "expected", Meaning(Current), "got", e.value>>)>>)
+                         /\ TLCSet(2, TLCGet(2) + 1)
        ELSE IF e.ev = "Load" THEN
             IF e.raised # "" THEN Reject(e, "load-raised", e.raised)
             \* Coherent: the value must be the meaning of the current texts ...
